@@ -16,9 +16,11 @@ WIDTH_CTX = ["stmt", "stmt_nested", "linecomment", "linecomment_tab", "eol_comme
              "block_mid", "block_last", "block_mid_tab", "proto_no_newline", "linecomment_no_newline", "define_string",
              "in_second_function", "header_proto", "header_define", "header_member", "global_decl", "ctrl_line", "decl_line",
              "block_after_function", "eol_comment_block", "two_long_lines_one_statement", "long_second_line_of_statement",
-             "line_ending_in_splice", "two_long_lines_in_prototype"]
+             "line_ending_in_splice", "two_long_lines_in_prototype", "block_mid_between_signature_and_brace",
+             "block_mid_in_struct", "block_mid_before_endif", "linecomment_between_signature_and_brace"]
 LINES_CTX = ["plain", "with_decls", "with_blocks", "second_function", "nested_blocks", "wrapped_call2", "wrapped_call3",
-             "wrapped_condition", "wrapped_assign_in_block", "else_chain"]
+             "wrapped_condition", "wrapped_assign_in_block", "else_chain", "nested_no_braces", "nested_no_braces_3",
+             "no_braces_around_block", "no_brace_nest_at_end", "nest_then_else", "nested_in_block"]
 COUNT_CTX = {"funcs": ["plain", "with_protos", "with_globals", "static_functions", "alternating_static"],
              "params": ["definition", "prototype", "static_definition", "second_function", "header_prototype", "pointer_params",
                         "funcptr_param", "const_first", "multiline_definition", "array_params", "static_prototype"],
@@ -104,7 +106,7 @@ def build(limit, ctx, n, ex):
                 b.ident(w - 9)
                 b.add(";\n")
             b.add("\treturn (x);\n}\n")
-        elif ctx in ("header_proto", "header_define", "header_member"):
+        elif ctx in ("header_proto", "header_define", "header_member", "block_mid_in_struct", "block_mid_before_endif"):
             name = "t.h"
             b.items = []
             b.line = 1
@@ -116,6 +118,18 @@ def build(limit, ctx, n, ex):
                 b.filler(w - 15, CC.replace("'", ""))
                 b.add('"\n\n')
                 b.add("int\tfoo(void);\n")
+            elif ctx == "block_mid_in_struct":
+                b.add("typedef struct s_pt\n{\n\tint\t\tx;\n/*\n")
+                target = b.line
+                b.add("** ")
+                b.filler(w - 3, CC)
+                b.add("\n*/\n\tchar\t*name;\n}\tt_pt;\n\nint\tfoo(void);\n")
+            elif ctx == "block_mid_before_endif":
+                b.add("int\tfoo(void);\n\n/*\n")
+                target = b.line
+                b.add("** ")
+                b.filler(w - 3, CC)
+                b.add("\n*/\n")
             elif ctx == "header_member":
                 b.add("typedef struct s_pt\n{\n")
                 target = b.line
@@ -235,6 +249,21 @@ def build(limit, ctx, n, ex):
                 b.filler(w - 3, CC)
                 b.add("\n*/\n")
                 return name, b.items, [("LINE_TOO_LONG", target, w > 80)], target
+            elif ctx in ("block_mid_between_signature_and_brace", "linecomment_between_signature_and_brace"):
+                b.add("int\tmain(void)\n")
+                if ctx.startswith("block"):
+                    b.add("/*\n")
+                    target = b.line
+                    b.add("** ")
+                    b.filler(w - 3, CC)
+                    b.add("\n*/\n")
+                else:
+                    target = b.line
+                    b.add("// ")
+                    b.filler(w - 3, CC)
+                    b.add("\n")
+                b.add("{\n\treturn (0);\n}\n")
+                return name, b.items, [("LINE_TOO_LONG", target, w > 80)], target
             elif ctx == "eol_comment_block":
                 target = b.line
                 b.add("int\tmain(void); /* ")  # 19
@@ -287,6 +316,27 @@ def build(limit, ctx, n, ex):
         if ctx == "else_chain":
             b.add("\tif (1)\n\t\tfoo(1);\n\telse if (2)\n\t\tfoo(2);\n\telse\n\t\tfoo(3);\n")
             body += 6
+        # control structures nested WITHOUT braces, closed by one instruction (every header line counts)
+        tail = ""
+        if ctx == "nested_no_braces":
+            b.add("\twhile (1)\n\t\tif (2)\n\t\t\tfoo(1);\n")
+            body += 3
+        if ctx == "nested_no_braces_3":
+            b.add("\twhile (1)\n\t\tif (2)\n\t\t\twhile (3)\n\t\t\t\tfoo(1);\n")
+            body += 4
+        if ctx == "no_braces_around_block":
+            b.add("\twhile (1)\n\t\tif (2)\n\t\t{\n\t\t\tfoo(1);\n\t\t\tfoo(2);\n\t\t}\n")
+            body += 6
+        if ctx == "nest_then_else":
+            b.add("\tif (1)\n\t\twhile (2)\n\t\t\tfoo(1);\n\telse\n\t\twhile (3)\n\t\t\tif (4)\n\t\t\t\tfoo(2);\n")
+            body += 7
+        if ctx == "nested_in_block":
+            b.add("\tif (1)\n\t{\n\t\twhile (2)\n\t\t\tif (3)\n\t\t\t\tfoo(1);\n")
+            body += 5
+            close = ["\t}\n"]
+        if ctx == "no_brace_nest_at_end":
+            tail = "\twhile (1)\n\t\tif (2)\n\t\t\tfoo(9);\n"
+            body += 3
         depth = 1 + len(close)
         while body < n - 1 - len(close):
             b.add("\t" * depth + "foo(")
@@ -296,6 +346,7 @@ def build(limit, ctx, n, ex):
         for c in close:
             b.add(c)
             body += 1
+        b.add(tail)
         brace_line = b.line + 1
         b.add("\treturn (0);\n}\n")
         body += 1
